@@ -1,7 +1,7 @@
 (* C09 — Stop-on-error halts the batch; unprocessed items are never reported as successes.
    Only property theorems here. All schedules, all item / worker counts, all user code. *)
 From Flyt Require Import Base Script FlowTable Engine BatchConc EngineCorr EngineFacts
-     ItemMon BatchConcInv BatchConcItems BatchConcStop TwoWorkers.
+     ItemMon BatchConcInv BatchConcItems BatchConcStop WorkersPrefix.
 
 (* Once the stop flag is up (set by the record step of a failing item in stop mode) it stays
    up, and an item whose task had not yet passed its stop-flag check — not yet received, or
@@ -48,6 +48,24 @@ Theorem C09_never_run_is_error :
         exists e, slot_at s i = Some (VRes VNil (Some e)).
 Proof. exact never_run_error_lemma. Qed.
 Print Assumptions C09_never_run_is_error.
+
+(* stop mode, ANY number of workers, every schedule, context alive: before an executed item y at
+   most workers - 1 items are anything else than processed to the end with success (they are the
+   items the other workers held when y passed its stop-flag check).  So a skipped item before y,
+   and the item whose failure raised the flag if it is before y, are among those workers - 1. *)
+Theorem C09_workers_prefix :
+  forall (o : oracle) c nd (items : list val) nworkers qcap,
+    has_exec c = true ->
+    forall s0 sched,
+      let s := brun o c nd items true qcap (binit items nworkers s0) sched in
+      cancelled (base s) = false ->
+      forall y, il s y <> [] ->
+      exists l, length l <= nworkers - 1 /\
+        forall i, i < y -> ~ In i l ->
+          (i < deq s /\ (forall pc, ~ running s i pc)) /\
+          exists x, ist_result c (irun c nd (item_at items i) (il s i)) = Some (inl x).
+Proof. exact workers_prefix_lemma. Qed.
+Print Assumptions C09_workers_prefix.
 
 (* stop mode on TWO workers, every schedule, context alive: if item y was executed and an earlier
    item m was not (no callback was made for it: it was skipped), then every OTHER item before y was
